@@ -2,6 +2,6 @@ SPECIFICATION Spec
 CONSTANTS W = 5
           WS = 5
           Deep = {}
-          OptSet = {"default", "useall", "export", "exporttop", "useall_export"}
+          OptSet = {"default", "useall", "export", "exporttop", "useall_export", "tng", "tng_export", "tng_exporttop"}
 INVARIANTS Emit
 CHECK_DEADLOCK FALSE
